@@ -40,7 +40,7 @@ class Manager(RoleClient):
     def __init__(self, sim, spec) -> None:
         super().__init__(sim, spec)
         self.role = spec.get("role", "media")
-        self.uploaded: dict[tuple[str, str], dict] = {}    # (stream dir, file stem) -> {"payloads": [...], "sha": ..}
+        self.uploaded: dict[tuple[str, str], list[dict]] = {}    # (stream dir, file stem) -> upload attempts
         self.observers: list = []
         self.current_op: dict | None = None
 
@@ -131,26 +131,22 @@ class Manager(RoleClient):
             fname, data = forge.build(entry["forge"])
         if st.get("truncate"):
             data = data[:max(16, len(data) - int(st["truncate"]))]
-        js = await self.api.upload(spk, fname, data)
-        if js is not None and s is not None:
+        # record the attempt before sending: the response may be lost while the upload took effect
+        if s is not None:
             stem = fname.rsplit(".", 1)[0]
             try:
                 sf = isobmff.scan_stored(fname, data)
                 payloads = [sg.payload_sha for sg in sf.segments]
             except Exception:  # noqa: BLE001
                 payloads = None
-            self.uploaded[(s["directory"], stem)] = {"sha": hashlib.sha1(data).hexdigest(), "payloads": payloads,
-                                                     "size": len(data), "pk": js.get("pk"), "indexed": False}
-            self.notify("on_uploaded", s["directory"], stem, data)
+            self.uploaded.setdefault((s["directory"], stem), []).append(
+                {"sha": hashlib.sha1(data).hexdigest(), "payloads": payloads, "size": len(data)})
+        await self.api.upload(spk, fname, data)
 
     async def op_index(self, st: dict) -> None:
         m = self.pick(rows(self.sim.world, "media_file"), st.get("which_file", 0), st.get("ghost", False))
         mfid = m["pk"] if m else 9999
-        js = await self.api.index(mfid, m["stream"] if m else None)
-        if js is not None and m is not None and js.get("indexed"):
-            for (d, stem), rec in self.uploaded.items():
-                if stem == m["name"]:
-                    rec["indexed"] = True
+        await self.api.index(mfid, m["stream"] if m else None)
 
     async def op_edit_media(self, st: dict) -> None:
         m = self.pick(rows(self.sim.world, "media_file"), st.get("which_file", 0), st.get("ghost", False))
@@ -269,18 +265,31 @@ class Manager(RoleClient):
             s = streams.get(m["stream"])
             if s is None or m["rep"] is None:
                 continue
-            rec = self.uploaded.get((s["directory"], m["name"]))
-            if rec is None:
+            attempts = self.uploaded.get((s["directory"], m["name"]))
+            if not attempts:
                 continue
             blobs = {b["pk"]: b for b in rows(world, "Blob")}
             b = blobs.get(m["blob"])
             if b is None:
                 continue
+            path = world.blob_dir / s["directory"] / b["filename"]
+            if not path.exists():
+                continue
+            try:
+                stored = isobmff.scan_stored(b["filename"], path.read_bytes())
+            except Exception:  # noqa: BLE001
+                continue
+            shas = [sg.payload_sha for sg in stored.segments]
+            # the stored file must carry the payloads of one of the uploads of that name (edits keep payloads)
+            rec = next((a for a in reversed(attempts) if a["payloads"] == shas), None)
+            if rec is None:
+                self.notify("on_readback_unknown", s["directory"], m["name"])
+                continue
             size = b["size"]
             url = BASE + f"/dash/odvod/{s['directory']}/{m['name']}.mp4"
             r = await self.request("GET", url, headers={"Range": f"bytes=0-{size - 1}"})
             self.notify("on_readback", s["directory"], m["name"], "odvod", url, r, rec)
-            nseg = len(rec["payloads"] or [])
+            nseg = len(shas)
             if not s.get("timing_reference"):
                 continue      # the segment routes need a timing reference; the on-demand route above does not
             for n in ([1, nseg] if nseg > 1 else [1]):
